@@ -234,3 +234,47 @@ Proof.
       apply (fg_kin _ _ _ G24 r p c Hp' Hin). }
     rewrite !Hkeep by lia. apply (T24 r p c Hp' Hin).
 Qed.
+
+Lemma kind_reapply s c : kind_of (fst (reapply s c)) = kind_of s.
+Proof.
+  unfold reapply. destruct (sassoc str_NS (data s c)); [|reflexivity].
+  pose proof (se_dict_del s c str_NS) as H1. destruct (dict_del s c str_NS) as [s1 [e|]]; cbn [bindR fst] in *; [apply (se_kind _ _ H1)|].
+  rewrite (se_kind _ _ (se_dict_set s1 c str_NS v)). apply (se_kind _ _ H1).
+Qed.
+
+Lemma kind_register_child s x : kind_of (fst (register_child s x)) = kind_of s.
+Proof. unfold register_child. destruct (iref s x); reflexivity. Qed.
+Lemma kind_fold_register : forall L s, kind_of (fst (fold_idsR register_child L s)) = kind_of s.
+Proof.
+  induction L as [|x L IH]; intro s; cbn [fold_idsR]; [reflexivity|].
+  pose proof (kind_register_child s x) as H. destruct (register_child s x) as [s1 [e|]]; cbn [bindR fst] in *; [exact H|].
+  rewrite IH. exact H.
+Qed.
+
+(* Definition.clone keeps the typing of containment *)
+Theorem clone_definition_invt s d :
+  Inv1a s -> Fresh s -> InvT s -> snd (fst (clone_definition s d)) = None -> InvT (fst (fst (clone_definition s d))).
+Proof.
+  intros I1 F HT. pose proof (above_of_fresh s F) as Ab. pose proof (parlt_of_inv1a s I1 Ab) as Pl.
+  unfold clone_definition. destruct (def_clone1 (s, []) d) as [[[s1 m1] d'] [e|]] eqn:E; cbn [fst snd]; [discriminate|].
+  destruct (def_clone1_kp s [] d s1 m1 d' Ab Pl E) as [Hd' [Hn [Hf [Hg [Hpd [Ab1 Pl1]]]]]].
+  destruct (def_clone1_t s [] d s1 m1 d' Ab Pl E) as [Hkd T1].
+  destruct (km_def_clone1 _ _ _ _ _ _ _ E) as [_ Km].
+  intros _.
+  assert (K : kpsame s1 (fst (fold_idsR register_child (kids s1 RChildren d') s1 >>= fun s2 => reapply (set_drefs s2 d' []) d'))).
+  { apply kpsame_bind; [apply kpsame_fold_idsR; intros; apply kpsame_register_child|].
+    intro s2. eapply kpsame_trans; [|apply kpsame_reapply]. repeat split. }
+  assert (Kd : kind_of (fst (fold_idsR register_child (kids s1 RChildren d') s1 >>= fun s2 => reapply (set_drefs s2 d' []) d')) = kind_of s1).
+  { pose proof (kind_fold_register (kids s1 RChildren d') s1) as H.
+    destruct (fold_idsR register_child (kids s1 RChildren d') s1) as [s2 [e|]]; cbn [bindR fst] in *; [exact H|].
+    rewrite kind_reapply. exact H. }
+  destruct K as [K1 [K2 K3]].
+  assert (Hlt : forall r p c, In c (kids s r p) -> c < next s).
+  { intros r p c Hc. apply (i1_kids _ I1) in Hc. destruct (Nat.lt_ge_cases c (next s)) as [H|H]; [exact H|].
+    rewrite (proj2 (Ab r c H)) in Hc. discriminate. }
+  intros r p c Hc. rewrite K1 in Hc. rewrite Kd.
+  destruct (Nat.lt_ge_cases p (next s)) as [Hp|Hp].
+  - destruct (Hf r p Hp) as [Ek _]. rewrite Ek in Hc. rewrite !Km by (try exact Hp; apply (Hlt r p c Hc)). apply HT. exact Hc.
+  - destruct (Nat.lt_ge_cases p (next s1)) as [Hp1|Hp1]; [apply T1; [lia|exact Hc]|].
+    rewrite (proj1 (Ab1 r p Hp1)) in Hc. destruct Hc.
+Qed.
